@@ -111,6 +111,9 @@ func (f frameSpec) payload() []byte {
 		b[0] = f.Hdr
 	}
 	zeros := 0
+	if len(b) > 0 && b[0] == 0 {
+		zeros = 1
+	}
 	for i := 1; i < len(b); i++ {
 		if zeros >= 2 && b[i] <= 2 {
 			b[i] = 3 // emulation_prevention_three_byte
@@ -420,7 +423,7 @@ func verifyParts(c *caseSpec, parts [][]byte, hls bool) (*stats, *failure) {
 	// delimiters (source NAL types 7, 8, 9) are carried nor that they are
 	// omitted; every per-type policy whose PES count fits is tried, and the case
 	// passes when one of them explains the whole stream.
-	match := func(carry [3]bool) (*stats, *failure) {
+	match := func(carry uint32) (*stats, *failure) {
 		st := &stats{classes: append([]string(nil), st.classes...)}
 		vi, ai := 0, 0
 		audioSeen := 0
@@ -524,8 +527,13 @@ func verifyParts(c *caseSpec, parts [][]byte, hls bool) (*stats, *failure) {
 			// video
 			t := f.nalType()
 			inband := t >= 7 && t <= 9
-			if inband && !carry[t-7] {
-				st.classes = append(st.classes, "frame:in-band-7..9:omitted")
+			optional, withAUD := !mustCarry(t), needsAUD(t)
+			if optional && carry&(1<<t) == 0 {
+				if inband {
+					st.classes = append(st.classes, "frame:in-band-7..9:omitted")
+				} else {
+					st.classes = append(st.classes, fmt.Sprintf("frame:video-type-%d:omitted", t))
+				}
 				continue
 			}
 			if vi >= len(vq) {
@@ -575,9 +583,25 @@ func verifyParts(c *caseSpec, parts [][]byte, hls bool) (*stats, *failure) {
 				}
 				return st, fail("annexb", "frame %d (NAL type %d, %d bytes): %v", n, t, len(src), err)
 			}
-			if inband { // whatever else is put around it, the unit itself must be there, delimited
-				if !bytes.Equal(nals[len(nals)-1].Data, src) {
-					return st, fail("annexb-inband", "frame %d (in-band NAL type %d): last unit of its PES differs from the source", n, t)
+			if !withAUD {
+				// A unit of a type for which the statement promises no particular
+				// framing: it must be the last unit of its PES, byte for byte, behind a
+				// start code, and in front of it there may only be what the packetizer
+				// itself adds - an access unit delimiter, the stream's SPS and PPS.
+				last := nals[len(nals)-1]
+				if !bytes.Equal(last.Data, src) || last.TrailingZeros != 0 {
+					return st, fail("video-payload", "frame %d (NAL type %d, %d bytes): last unit of its PES (%d bytes, %d zero bytes behind it) differs from the source: got %s want %s", n, t, len(src), len(last.Data), last.TrailingZeros, evid.Hex(last.Data), evid.Hex(src))
+				}
+				for k, u := range nals[:len(nals)-1] {
+					isAUD := u.Data[0]&0x9f == 9 && len(u.Data) == 2 && u.Data[1]&0x1f == 0x10
+					if u.TrailingZeros != 0 || !(k == 0 && isAUD || len(sps) > 0 && bytes.Equal(u.Data, sps) || len(pps) > 0 && bytes.Equal(u.Data, pps)) {
+						return st, fail("access-unit", "frame %d (NAL type %d): unit %d of its PES (%s) is neither the source nor an access unit delimiter / the stream's SPS / PPS", n, t, k, evid.Hex(u.Data))
+					}
+				}
+				if len(nals) == 1 {
+					st.classes = append(st.classes, fmt.Sprintf("policy:type-%d-carried-without-AUD", t))
+				} else {
+					st.classes = append(st.classes, fmt.Sprintf("policy:type-%d-carried-with-%d-units-in-front", t, len(nals)-1))
 				}
 				continue
 			}
@@ -628,30 +652,48 @@ func verifyParts(c *caseSpec, parts [][]byte, hls bool) (*stats, *failure) {
 		}
 		return st, nil
 	}
-	var cnt [3]int
+	// carry/omit policies: one bit per optional NAL type present in the case
+	var cnt [32]int
 	base := 0
+	var opts []byte
 	for _, f := range c.Frames {
-		if t := f.nalType(); !f.Audio && t >= 7 && t <= 9 {
-			cnt[t-7]++
-		} else if !f.Audio {
-			base++
+		if f.Audio {
+			continue
 		}
+		if t := f.nalType(); mustCarry(t) {
+			base++
+		} else {
+			if cnt[t] == 0 {
+				opts = append(opts, t)
+			}
+			cnt[t]++
+		}
+	}
+	var all, allBut789 uint32
+	for _, t := range opts {
+		all |= 1 << t
+		if t < 7 || t > 9 {
+			allBut789 |= 1 << t
+		}
+	}
+	feasible := func(carry uint32) bool {
+		n := base
+		for _, t := range opts {
+			if carry&(1<<t) != 0 {
+				n += cnt[t]
+			}
+		}
+		return n == len(vq)
 	}
 	var firstFail *failure
 	var firstStats *stats
 	matched := false
-	for mask := 0; mask < 8 && !matched; mask++ {
-		carry := [3]bool{mask&1 != 0, mask&2 != 0, mask&4 != 0}
-		n, redundant := base, false
-		for k := 0; k < 3; k++ {
-			if carry[k] {
-				n += cnt[k]
-				redundant = redundant || cnt[k] == 0
-			}
+	tried := map[uint32]bool{}
+	try := func(carry uint32) {
+		if matched || tried[carry] || !feasible(carry) {
+			return
 		}
-		if redundant || n != len(vq) {
-			continue
-		}
+		tried[carry] = true
 		s2, f := match(carry)
 		if f == nil {
 			st, matched = s2, true
@@ -659,11 +701,25 @@ func verifyParts(c *caseSpec, parts [][]byte, hls bool) (*stats, *failure) {
 			firstFail, firstStats = f, s2
 		}
 	}
+	try(allBut789) // what ipchub does today
+	try(all)
+	try(0)
+	if len(opts) <= 12 {
+		for m := 0; m < 1<<len(opts) && !matched; m++ {
+			var carry uint32
+			for k, t := range opts {
+				if m&(1<<k) != 0 {
+					carry |= 1 << t
+				}
+			}
+			try(carry)
+		}
+	}
 	if !matched {
 		if firstFail != nil {
 			return firstStats, firstFail
 		}
-		return st, fail("video-count", "%d PES on PID 0x100 for %d frames of NAL type 1/5/6 and %d/%d/%d in-band frames of type 7/8/9: no carry/omit policy accounts for that", len(vq), base, cnt[0], cnt[1], cnt[2])
+		return st, fail("video-count", "%d PES on PID 0x100 for %d frames whose NAL type must be carried and %d frames of optional types %v: no per-type carry/omit policy accounts for that", len(vq), base, len(c.Frames)-base, opts)
 	}
 	for i, r := range rs {
 		if len(r.NonFFStuffing) > 0 {
@@ -673,6 +729,27 @@ func verifyParts(c *caseSpec, parts [][]byte, hls bool) (*stats, *failure) {
 	}
 	return st, nil
 }
+
+// mustCarry: source NAL types whose unit has to come out. 1, 5, 6 are the ones
+// the statement speaks about ("the source NAL unit preceded by an access-unit
+// delimiter"); 2, 3, 4 (slice data partitions), 19 (auxiliary slice), 20, 21
+// (slice extensions) are coded picture data, which a faithful carrier cannot
+// drop. Everything else - parameter sets and delimiters 7, 8, 9 (re-created by
+// the packetizer), end of sequence / stream 10, 11, filler 12, 13, 14, 15,
+// reserved 16-18, 22, 23 and unspecified 0, 24-31 - may be carried or omitted,
+// uniformly per type; what is carried must be delimited and byte-equal.
+func mustCarry(t byte) bool {
+	switch t {
+	case 1, 5, 6, 2, 3, 4, 19, 20, 21:
+		return true
+	}
+	return false
+}
+
+// needsAUD: the types for which the statement fixes the framing (AUD in front,
+// SPS and PPS on key frames). ipchub writes the other types behind a bare
+// 4-byte start code; that, or an AUD in front, is accepted for them.
+func needsAUD(t byte) bool { return t == 1 || t == 5 || t == 6 }
 
 func bucket(n int) string {
 	switch {
